@@ -146,7 +146,7 @@ def run(ctx):
                                 from simfile.ssc import SSCChart
                                 c = SSCChart(); c["STEPSTYPE"] = "dance-single"; sf.charts.append(c)
                             problems.append(("chart without note data", no_notes))
-                        bad_char = {"utf-8": None, "cp1252": "あ", "cp932": "한", "cp949": "ก"}[detected]
+                        bad_char = {"utf-8": "\ud800", "cp1252": "あ", "cp932": "한", "cp949": "ก"}[detected]     # utf-8: a lone surrogate
                         if bad_char:
                             def unenc(sf, ch=bad_char):
                                 sf.title = new_title; sf.artist = "a" + ch
